@@ -19,17 +19,20 @@ func FlatWriter(ram *[1 << 24]byte) cpualt.BusWriter {
 
 // ---- C08: with the whole bus mapped, Step never fails at runtime and stays below 2^24 ----
 // The obligations are the implicit ones inside the real code: every index into the segment / reader /
-// writer tables (address>>4 < 2^20) and into the RAM (address < 2^24), plus unreachability of panics.
+// writer tables (address>>4 < 2^20) and into the RAM (address < 2^24), plus unreachability of panics; and the
+// state the next step starts from is again one the lemma covers (flag bytes in {0,1}, no pending interrupt).
 
 //@ lemma StepSafe65 property C08
 //@   harness flat65 cpu=c op=op
 //@   requires !has(c.OnPC, uint32(c.RK)<<16|uint32(c.PC))
+//@   ensures c.N <= 1 && c.V <= 1 && c.M <= 1 && c.X <= 1 && c.D <= 1 && c.I <= 1 && c.Z <= 1 && c.C <= 1 && c.E <= 1 && c.Interrupt != 2 && c.Interrupt != 3
 
 func StepSafe65(c *cpu65c816.CPU, op byte) { c.Step() }
 
 //@ lemma StepSafeAlt property C08
 //@   harness flatalt cpu=c op=op
 //@   requires !has(c.OnPC, uint32(c.RK)<<16|uint32(c.PC))
+//@   ensures c.N <= 1 && c.V <= 1 && c.M <= 1 && c.X <= 1 && c.D <= 1 && c.I <= 1 && c.Z <= 1 && c.C <= 1 && c.E <= 1 && c.Interrupt != 2 && c.Interrupt != 3
 
 func StepSafeAlt(c *cpualt.CPU, op byte) { c.Step() }
 
@@ -44,6 +47,7 @@ func StepSafeAlt(c *cpualt.CPU, op byte) { c.Step() }
 //@   ensures c.AllCycles == old(c.AllCycles) + uint64(ret1)
 //@   ensures ret2 == c.Stopped
 //@   ensures c.Stopped == (old(c.Stopped) || op == 0xDB)
+//@   ensures c.N <= 1 && c.V <= 1 && c.M <= 1 && c.X <= 1 && c.D <= 1 && c.I <= 1 && c.Z <= 1 && c.C <= 1 && c.E <= 1 && c.Interrupt != 2 && c.Interrupt != 3
 
 func StepCycles65(c *cpu65c816.CPU, op byte) (int, bool) { return c.Step() }
 
@@ -56,6 +60,7 @@ func StepCycles65(c *cpu65c816.CPU, op byte) (int, bool) { return c.Step() }
 //@   ensures c.AllCycles == old(c.AllCycles) + uint64(ret1)
 //@   ensures ret2 == c.Stopped
 //@   ensures c.Stopped == (old(c.Stopped) || op == 0xDB)
+//@   ensures c.N <= 1 && c.V <= 1 && c.M <= 1 && c.X <= 1 && c.D <= 1 && c.I <= 1 && c.Z <= 1 && c.C <= 1 && c.E <= 1 && c.Interrupt != 2 && c.Interrupt != 3
 
 func StepCyclesAlt(c *cpualt.CPU, op byte) (int, bool) { return c.Step() }
 
